@@ -15,6 +15,8 @@ def app_err(app):
     went out: the response ends after the k items yielded so far"""
     if len(app) <= 6 or app[6] is None:
         return None
+    if app[6][0] == "crash":
+        return ("crashes",)
     k = app[6][0]
     if k < 0:
         return ("replaces", app[6])
@@ -61,7 +63,7 @@ class C18(core.Check):
                   "The model is tied to serving.py by a seeded differential run (raw bytes, closed flag, app call count) under random fragmentation of the request "
                   "stream, service-cycle gaps and send quotas; default Server header and version string are re-extracted from the code on every run.")
     level_note = ("Trusted: Lean kernel + propext/Classical.choice/Quot.sound; the hand-written model's faithfulness is carried by the sampled correspondence; "
-                  "request parsing/fragmentation independence is C13's; app behaviours outside the quantifier (app raises something other than httping.HTTPError, app lists a Content-Length or a coding other than chunked "
+                  "request parsing/fragmentation independence is C13's; an app callable that raises another exception when called gets no response and the connection is closed (crash_closes_and_answers_nothing_more, serveX_closed_iff); app behaviours outside the quantifier (an iterator that raises something other than httping.HTTPError, app lists a Content-Length or a coding other than chunked "
                   "through the header list, output shorter than its declared length, 1xx/204/304, HEAD) are not generated.")
     quick_n = 700
     thorough_n = 12000
@@ -75,7 +77,7 @@ class C18(core.Check):
                     "oracle parser: CPython http.client.HTTPResponse",
                     "Date header frozen by patching httping.httpDate1123 in the harness process"]
     assumptions = ["request parsing is fragmentation independent (property C13) — the model takes parsed requests",
-                   "the app's output is at least as long as a Content-Length it declares; an app that raises raises httping.HTTPError (the documented way to fail)"]
+                   "the app's output is at least as long as a Content-Length it declares; an app whose ITERATOR raises raises httping.HTTPError (the documented way to fail); the callable itself may raise anything"]
 
     def extract(self):
         return xhf.extract()
@@ -111,6 +113,9 @@ class C18(core.Check):
             # the app lists Transfer-Encoding: chunked itself (name / value in any case), pipelined
             ([(1, 0, None), (1, 0, None)], [(b"200 OK", [(b"Transfer-Encoding", b"chunked")], None, [b"ab", b"cd"], None), A], ([], 1), None),
             ([(1, 0, None), (1, 0, None)], [(b"200 OK", [(b"X-A", b"1"), (b"transfer-encoding", b"Chunked")], None, [b"ab", b"", b"cd"], b"t"), B], ([], 1), None),
+            # the app callable raises (not an HTTPError) on a persistent request with the next request already buffered: no response, connection closed
+            ([(1, 0, None), (1, 0, None)], [(b"200 OK", [], None, [b"ab"], None, ([], []), ("crash", 0)), A], ([], 1), None),
+            ([(1, 0, None), (0, 1, 3), (1, 0, None)], [B, (b"200 OK", [], 2, [b"ab"], None, ([], []), ("crash", 3)), A], ([], 1), None),
             # the app raises HTTPError: at once, before the first non-empty item (the error carries a Content-Length that is not the text's), after the head
             ([(1, 0, None), (1, 0, None)], [(b"200 OK", [], None, [b"ab"], None, ([], []), (-1, 404, b"", b"Not here", b"d", None, [])), A], ([], 1), None),
             ([(1, 0, None), (1, 0, None)], [(b"200 OK", [(b"X-A", b"1")], 5, [b"", b"abcde"], None, ([], []), (1, 503, b"Busy", b"T", b"", 7, [(b"Retry-After", b"7"), (b"Content-Length", b"100")])), A], ([], 1), None),
@@ -210,6 +215,9 @@ class C18(core.Check):
                         a = (a[0], hs) + tuple(a[2:])
                     if rng.random() < 0.14:
                         a = self._err(rng, a)
+                    elif rng.random() < 0.06:
+                        # the app callable raises something else when it is called: no response, the server closes the connection
+                        a = tuple(a[:5]) + ((a[5] if len(a) > 5 else ([], [])), ("crash", rng.randrange(4)))
                     apps[i] = a
             if case[0] == "multi":
                 for conn in case[1]:
@@ -283,6 +291,8 @@ class C18(core.Check):
         def err(a):
             if len(a) <= 6 or a[6] is None:
                 return None
+            if a[6][0] == "crash":
+                return "crash"
             k, st, reason, title, detail, fault, ehs = a[6]
             return (0 if k < 0 else len(a[5][1]) + k, st, reason, title, detail, fault, [(n, v) for n, v in ehs])
         return ([(v, CONN[c]) for v, c, _ in reqs],
@@ -333,13 +343,19 @@ class C18(core.Check):
         reqs, apps, _, _ = case
         raw, closed, calls = obs
         bad = []
-        persistent = [hf.c18_persisted(r) for r in reqs]
+        # a request whose app crashes when called ends the connection like a non-persistent one, and gets no response at all
+        crashes = [bool(app_err(a)) and app_err(a)[0] == "crashes" for a in apps]
+        persistent = [hf.c18_persisted(r) and not c for r, c in zip(reqs, crashes)]
         n_exp = (persistent.index(False) + 1) if False in persistent else len(reqs)
         if closed != (False in persistent):
             bad.append("close-iff-not-persistent")
         if calls != n_exp:
             bad.append("responses-one-per-request-until-close")
+        if crashes[n_exp - 1]:
+            n_exp -= 1              # responses expected on the wire: one per request BEFORE the crashed one, in order, and nothing after
         parsed, used = hf.parse_responses(raw, n_exp)
+        if n_exp == 0 and raw:
+            bad.append("extra-bytes-after-last-response")
         for i in range(n_exp):
             status, headers, clen, pieces, retval = apps[i][:5]
             if i >= len(parsed) or "error" in parsed[i]:
@@ -402,9 +418,9 @@ class C18(core.Check):
         """index of the first request that is HTTP/1.0 keep-alive answered without Content-Length while the connection stays open"""
         reqs, apps, _, _ = case
         for i, r in enumerate(reqs):
-            if not hf.c18_persisted(r):
-                return None
             e = app_err(apps[i])
+            if not hf.c18_persisted(r) or (e and e[0] == "crashes"):
+                return None
             if r[0] == 0 and apps[i][2] is None and not (e and e[0] == "replaces"):      # an error response always carries its length
                 return i
         return None
@@ -430,6 +446,9 @@ class C18(core.Check):
         for i in range(obs[2]):
             r, a = reqs[i], apps[i]
             e = app_err(a)
+            if e and e[0] == "crashes":
+                f.append("app:crashes-when-called:" + ("persistent-request" if hf.c18_persisted(r) else "last-request") + (":more-requests-buffered" if i + 1 < len(reqs) else ""))
+                continue
             kind = ("error" if e and e[0] == "replaces" else ("len" if a[2] is not None else ("chunked" if r[0] == 1 else "bare"))) + ("/1.%d" % r[0])
             f.append("resp:" + kind)
             if a[2] is not None and a[2] < len(expected_body(a)):
@@ -457,6 +476,8 @@ class C18(core.Check):
                 return (reqs, apps[:i] + [tuple(a) + tuple(extra)] + apps[i + 1:], sched, quota)
             if len(app) > 6 and app[6] is not None:
                 yield put((st, hs, cl, ps, rv), (app[5],))
+                if app[6][0] == "crash":
+                    continue
                 k, est, er, et, ed, ef, eh = app[6]
                 for j in range(len(eh)):
                     yield put((st, hs, cl, ps, rv), (app[5], (k, est, er, et, ed, ef, eh[:j] + eh[j + 1:])))
@@ -555,6 +576,8 @@ class C18(core.Check):
                 f.append("status:int")
             for r, a in zip(case[0], case[1]):
                 e = app_err(a)
+                if e and e[0] == "crashes":
+                    continue
                 if e:
                     f.append("app:raises-HTTPError:" + ("before-any-byte" if e[0] == "replaces" else "after-the-head"))
                     if e[0] == "replaces":
